@@ -12,13 +12,20 @@ import (
 // real parseQueryerResponse (abstract JSON codec driven by the struct tags of remote.go) and
 // introspectRemoteSchema; the reconstructed schema must equal the descriptor.
 
-type v15Queryer struct{ answer map[string]interface{} }
+type v15Queryer struct {
+	answer   map[string]interface{}
+	noDepEnum func() // called when the query does not ask for deprecated enum values
+}
 
 func (q *v15Queryer) URL() string { return "u" }
 func (q *v15Queryer) Subscribe(*requests.Request, <-chan struct{}, chan *requests.Response) error {
 	return nil
 }
 func (q *v15Queryer) Query(in []*requests.Request) ([]map[string]interface{}, error) {
+	// a spec-compliant responder evaluates the query: deprecated enum values are only listed on request
+	if len(in) == 1 && !strings.Contains(in[0].Query, "enumValues(includeDeprecated: true)") && q.noDepEnum != nil {
+		q.noDepEnum()
+	}
 	return []map[string]interface{}{q.answer}, nil
 }
 
@@ -112,13 +119,19 @@ func VerifIntrospect() {
 		v15Field("e", "", "E", []interface{}{}, false, ""),
 		v15Field("s", "", "S", []interface{}{}, false, ""),
 	}
-	o["interfaces"] = []interface{}{v15TypeRef("", "I")}
+	o["interfaces"] = []interface{}{v15TypeRef("", "I"), v15TypeRef("", "I2")}
 	p := v15Type("OBJECT", "P")
 	p["fields"] = []interface{}{v15Field("g", "N", "Int", []interface{}{}, false, "")}
 	p["interfaces"] = []interface{}{}
 	i := v15Type("INTERFACE", "I")
 	i["fields"] = []interface{}{v15Field("e", "", "E", []interface{}{}, false, "")}
 	i["possibleTypes"] = []interface{}{v15TypeRef("", "O")}
+	i["interfaces"] = []interface{}{}
+	// an interface that implements another interface
+	i2 := v15Type("INTERFACE", "I2")
+	i2["fields"] = []interface{}{v15Field("e", "", "E", []interface{}{}, false, ""), v15Field("s", "", "S", []interface{}{}, false, "")}
+	i2["interfaces"] = []interface{}{v15TypeRef("", "I")}
+	i2["possibleTypes"] = []interface{}{v15TypeRef("", "O")}
 	u := v15Type("UNION", "U")
 	u["possibleTypes"] = []interface{}{v15TypeRef("", "O"), v15TypeRef("", "P")}
 	e := v15Type("ENUM", "E")
@@ -142,7 +155,7 @@ func VerifIntrospect() {
 	m := v15Type("OBJECT", "Mutation")
 	m["fields"] = []interface{}{v15Field("set", "", "Int", []interface{}{}, false, "")}
 	m["interfaces"] = []interface{}{}
-	types := []interface{}{q, o, p, i, u, e, in, v15Scalar("S"), v15Scalar("Int"), v15Scalar("String"), v15Scalar("Boolean")}
+	types := []interface{}{q, o, p, i, i2, u, e, in, v15Scalar("S"), v15Scalar("Int"), v15Scalar("String"), v15Scalar("Boolean")}
 	if withMutation {
 		types = append(types, m)
 	}
@@ -174,6 +187,12 @@ func VerifIntrospect() {
 		schema["mutationType"] = map[string]interface{}{"name": "Mutation"}
 	}
 	qr := &v15Queryer{answer: map[string]interface{}{"__schema": schema}}
+	qr.noDepEnum = func() {
+		if deprecated {
+			e["enumValues"] = e["enumValues"].([]interface{})[:1]
+		}
+	}
+	depSection := verifChoice("section", 2) == 1
 	got, err := introspectRemoteSchema(func(string) queryer.Queryer { return qr }, "u")
 
 	if malformed != 0 {
@@ -182,7 +201,7 @@ func VerifIntrospect() {
 		return
 	}
 	verifKnown("C15-argument-default-dropped", defKind != 0)
-	verifKnown("C15-deprecation-dropped", deprecated)
+	verifKnown("C15-deprecation-dropped", deprecated && depSection)
 	verifKnown("C15-input-default-quoted", inDefault)
 	verifAssert(err == nil, "a spec-compliant answer is accepted")
 	if err != nil {
@@ -202,11 +221,13 @@ func VerifIntrospect() {
 	} else {
 		verifAssert(f.Arguments[0].DefaultValue == nil, "no default is invented")
 	}
-	if deprecated {
+	if deprecated && depSection {
 		verifAssert(f.Directives.ForName("deprecated") != nil, "field deprecations are reproduced")
 		verifAssert(got.Types["E"].EnumValues.ForName("B").Directives.ForName("deprecated") != nil, "enum value deprecations are reproduced")
 	}
-	verifAssert(len(O.Interfaces) == 1 && O.Interfaces[0] == "I", "interface implementations are reproduced")
+	verifAssert(len(O.Interfaces) == 2 && O.Interfaces[0] == "I" && O.Interfaces[1] == "I2", "interface implementations are reproduced")
+	I2 := got.Types["I2"]
+	verifAssert(I2 != nil && I2.Kind == ast.Interface && len(I2.Interfaces) == 1 && I2.Interfaces[0] == "I", "an interface implementing an interface keeps its implements clause")
 	U := got.Types["U"]
 	verifAssert(U != nil && U.Kind == ast.Union && len(U.Types) == 2, "union members are reproduced")
 	E := got.Types["E"]
